@@ -23,8 +23,8 @@
     e    ::= (int n) | (bool 0|1) | (unit) | (var x) | (host f e…) | (call f e…)
            | (bin op e e) | (and e e) | (or e e) | (not e) | (neg e)
            | (ite e blk blk) | (if1 e blk) | (match opt|enm e arm…) | (while e blk) | (for x e blk)
-           | (block blk) | (set x e) | (cset op x e) | (ret e) | (accept e) | (reject e)
-           | (try e) | (some e) | (none) | (ctor k e…) | (record e…) | (field e i)
+           | (block blk) | (set x e) | (cset op x e) | (setf x i e) | (csetf op x i e) | (ret e) | (accept e) | (reject e)
+           | (try e) | (some e) | (none) | (ctor k e…) | (record (p…) e…) | (field e i)
            | (list e…) | (fstr part…) | (concat e e)
     arm  ::= (arm pat blk) | (armg pat e blk)      pat ::= (v k x…) | (wild)
     part ::= (s x<hex>) | (e e)
@@ -130,6 +130,8 @@ partial def toExpr : Sexp → Option Expr
   | .list [.atom "block", b] => do pure (.block (← toBlock b))
   | .list [.atom "set", .atom x, e] => do pure (.assign (← x.toNat?) (← toExpr e))
   | .list [.atom "cset", .atom op, .atom x, e] => do pure (.cassign (← parseOp op) (← x.toNat?) (← toExpr e))
+  | .list [.atom "setf", .atom x, .atom i, e] => do pure (.assignF (← x.toNat?) (← i.toNat?) (← toExpr e))
+  | .list [.atom "csetf", .atom op, .atom x, .atom i, e] => do pure (.cassignF (← parseOp op) (← x.toNat?) (← i.toNat?) (← toExpr e))
   | .list [.atom "ret", e] => do pure (.ret (← toExpr e))
   | .list [.atom "accept", e] => do pure (.accept (← toExpr e))
   | .list [.atom "reject", e] => do pure (.reject (← toExpr e))
@@ -137,7 +139,7 @@ partial def toExpr : Sexp → Option Expr
   | .list [.atom "some", e] => do pure (.some (← toExpr e))
   | .list [.atom "none"] => some .none
   | .list (.atom "ctor" :: .atom k :: args) => do pure (.ctor (← k.toNat?) (← toExprs args))
-  | .list (.atom "record" :: fs) => do pure (.record (← toExprs fs))
+  | .list (.atom "record" :: .list perm :: fs) => do pure (.record (← natList perm) (← toExprs fs))
   | .list [.atom "field", e, .atom i] => do pure (.field (← toExpr e) (← i.toNat?))
   | .list (.atom "list" :: es) => do pure (.list (← toExprs es))
   | .list (.atom "fstr" :: ps) => do pure (.fstr (← toParts ps))
@@ -255,8 +257,9 @@ def variantName : Val → String
   | .enm k _ => (["A", "B", "C"][k]?).getD s!"V{k}"
   | _ => "?"
 
-/-- record R { a: i32, b: i32 } -/
-def fieldName (i : Nat) : String := (["a", "b", "c", "d"][i]?).getD s!"f{i}"
+/-- record R { b: i32, c: i32, a: i32 } — positions in the declaration, which is deliberately
+    neither alphabetical nor the order any literal has to use -/
+def fieldName (i : Nat) : String := (["b", "c", "a"][i]?).getD s!"f{i}"
 
 /-- the variant a `cloneProj` tag names: 0/1 = Some/None, 10+k = variant k of `E` -/
 def tagName (tag : Nat) : String :=
